@@ -42,14 +42,17 @@ func c17Scenarios(tier string) []*core.Scenario {
 	var scs []*core.Scenario
 	scs = append(scs, &core.Scenario{
 		Name: "mode_switches", Bound: -1,
-		Rule:   "programs of 3 segments with a directive choice {none,[BITS 16],[BITS 32]} in front of each x 10 mode-sensitive instruction groups x 7 neutral statements between directive and instructions; output must equal the concatenation of each segment assembled alone under the mode in force; non-trivial = at least two different modes in force",
-		Bounds: map[string]any{"segments": 3, "directive_choices": []string{"none", "16", "32"}, "groups": len(c17Groups), "neutral": c17Neutral},
+		Rule:   "programs of 3 segments with a directive choice {none, [BITS 16], [BITS 32], [BITS 32][BITS 16], [BITS 16][BITS 32]} (the last two: a directive overridden at once by the next line) in front of each x 18 mode-sensitive instruction groups x 7 neutral statements between directive and instructions; output must equal the concatenation of each segment assembled alone under the mode in force; non-trivial = at least two different modes in force",
+		Bounds: map[string]any{"segments": 3, "directive_choices": []string{"none", "16", "32", "32 then 16", "16 then 32"}, "groups": len(c17Groups), "neutral": c17Neutral},
 		Build: func(c *core.Chooser) *core.Case {
 			g := c.Pick("group", len(c17Groups))
 			nt := c17Neutral[c.Pick("neutral", len(c17Neutral))]
 			var dirs [3]int
+			var before [3]int // a directive of the OTHER mode written directly in front of the one that counts (0 = none)
 			for i := 0; i < 3; i++ {
-				dirs[i] = []int{0, 16, 32}[c.Pick(fmt.Sprintf("dir%d", i), 3)]
+				k := c.Pick(fmt.Sprintf("dir%d", i), 5)
+				dirs[i] = []int{0, 16, 32, 16, 32}[k]
+				before[i] = []int{0, 0, 0, 32, 16}[k]
 			}
 			inForce := 16
 			var src strings.Builder
@@ -74,6 +77,7 @@ func c17Scenarios(tier string) []*core.Scenario {
 				} else if n == "X EQU 5" {
 					n = fmt.Sprintf("X%d EQU 5", i)
 				}
+				src.WriteString(bitsLine(before[i])) // overridden at once by the next line: two directives, nothing between them
 				src.WriteString(bitsLine(dirs[i]))
 				if n != "" && dirs[i] != 0 {
 					src.WriteString(stmtLine(n))
@@ -93,9 +97,9 @@ func c17Scenarios(tier string) []*core.Scenario {
 			srcs := append([]string{src.String()}, segSrcs...)
 			srcs = append(srcs, lastSrcs...)
 			return &core.Case{
-				Key:  fmt.Sprintf("dirs=%v|group=%d|neutral=%s", dirs, g, nt),
-				Feat: feat("dirs", fmt.Sprint(dirs), "eff", fmt.Sprint(eff), "group", fmt.Sprint(g), "neutral", nt, "mixed", fmt.Sprint(mixed), "last", fmt.Sprint(last)),
-				Srcs: srcs,
+				Key:       fmt.Sprintf("dirs=%v|group=%d|neutral=%s", dirs, g, nt) + map[bool]string{true: fmt.Sprintf("|overridden=%v", before), false: ""}[before != [3]int{}],
+				Feat:      feat("dirs", fmt.Sprint(dirs), "overridden", fmt.Sprint(before), "eff", fmt.Sprint(eff), "group", fmt.Sprint(g), "neutral", nt, "mixed", fmt.Sprint(mixed), "last", fmt.Sprint(last)),
+				FreshRefs: true, Srcs: srcs,
 				Judge: func(rs []*core.Result) core.Verdict {
 					v := core.Verdict{}
 					for _, r := range rs[:4] {
@@ -148,9 +152,9 @@ func c17Scenarios(tier string) []*core.Scenario {
 			}
 			ref := bitsLine(eff) + c17Body(c17Groups[g]) + tail
 			return &core.Case{
-				Key:  fmt.Sprintf("BITS %d at %d|group=%d", m, pos, g),
-				Feat: feat("mode", fmt.Sprint(m), "pos", fmt.Sprint(pos), "group", fmt.Sprint(g)),
-				Srcs: []string{sb.String(), ref},
+				Key:       fmt.Sprintf("BITS %d at %d|group=%d", m, pos, g),
+				Feat:      feat("mode", fmt.Sprint(m), "pos", fmt.Sprint(pos), "group", fmt.Sprint(g)),
+				FreshRefs: true, Srcs: []string{sb.String(), ref},
 				Judge: func(rs []*core.Result) core.Verdict {
 					v := core.Verdict{}
 					if core.ReportsError(rs[0], nil) || core.ReportsError(rs[1], nil) {
